@@ -108,18 +108,20 @@ class C18(Check):
     pid = "C18"
     level = "exploration"
     engine = "calsim"
-    rule = ("one evaluation = one op history over {calibrate(n), set_samplers(list), set_scheduler(round-robin), create_checkpoint, "
+    rule = ("one evaluation = one op history over {calibrate(n), set_samplers(list), set_scheduler(round-robin or RL), create_checkpoint, "
             "restore+continue} on a real Calibrator with a folder, line-ups where classes repeat and come and go; the sampler seam "
             "records the class that produced every row; after every op the live table is compared with the reference table, and every "
             "checkpoint written is restored and also read by plot_results._get_samplers_names; non-trivial = the line-up was replaced "
             "at least once and at least 2 batches completed; distinct = distinct (line-ups, op kinds)")
     assumptions = ["Calibrator, checkpointing, plot_results helper: real code (matplotlib/seaborn imported with the Agg back-end, nothing is drawn)",
-                   "RL scheduler is not used here (set_scheduler is exercised with round-robin schedulers)"]
+                   "RL schedulers (a fifth of the initial configurations, a third of the set_scheduler ops) run with a scripted agent on baton-scheduled threads"]
     quick = {"runs": 600, "wall": 300, "item_timeout": 300}
     thorough = {"runs": 15000, "wall": 900, "item_timeout": 180}
 
     def gen(self, rng, tier, i):
-        cfg = calsim.gen_config(rng, rl_prob=0.0, kinds=CHEAP, loss_kinds=["minkowski", "msm"], max_bs=2)
+        cfg = calsim.gen_config(rng, rl_prob=0.2, kinds=CHEAP, loss_kinds=["minkowski", "msm"], max_bs=2)
+        if cfg["scheduler"]["kind"] == "rl":
+            cfg["scheduler"]["agent"] = {"kind": "scripted", "script": [rng.randrange(8) for _ in range(rng.randint(1, 6))]}
         ops = [["calibrate", rng.randint(1, 4)]]
         for _ in range(rng.randint(1, 4)):
             u = rng.random()
@@ -127,7 +129,12 @@ class C18(Check):
                 ops.append(["set_samplers", calsim.gen_lineup(rng, n=rng.randint(1, 3), kinds=CHEAP, max_bs=2)])
                 ops.append(["calibrate", rng.randint(1, 3)])
             elif u < 0.55:
-                ops.append(["set_scheduler", {"kind": "rr", "lineup": calsim.gen_lineup(rng, n=rng.randint(1, 3), kinds=CHEAP, max_bs=2)}])
+                if rng.random() < 0.3:
+                    # an RL scheduler brings its own Halton bootstrap sampler when the line-up has none
+                    ops.append(["set_scheduler", {"kind": "rl", "agent": {"kind": "scripted", "script": [rng.randrange(8) for _ in range(rng.randint(1, 6))]},
+                                                  "lineup": calsim.gen_lineup(rng, n=rng.randint(1, 3), kinds=CHEAP, max_bs=2, rl=True)}])
+                else:
+                    ops.append(["set_scheduler", {"kind": "rr", "lineup": calsim.gen_lineup(rng, n=rng.randint(1, 3), kinds=CHEAP, max_bs=2)}])
                 ops.append(["calibrate", rng.randint(1, 3)])
             elif u < 0.7:
                 ops.append(["checkpoint", rng.choice("AB")])
